@@ -142,7 +142,8 @@ class ExprMixin:
         elem = join_all(vals) if vals else None
         if elem is not None:
             elem = replace(elem, const=NOCONST)
-        items = tuple(vals) if kind == "tuple" and not any(isinstance(e, ast.Starred) for e in elts) else None
+        items = tuple(vals) if kind in ("tuple", "list") and len(vals) <= 8 and \
+            not any(isinstance(e, ast.Starred) for e in elts) else None
         quals = frozenset({EMPTYQ}) if not vals else frozenset()
         const = NOCONST
         if kind in ("tuple", "list") and vals and all(v.has_const() for v in vals) and len(vals) <= 16:
